@@ -199,6 +199,7 @@ let run_trie_ops (prefix : string) (v : variant) (built : trie) (ops : string li
     | ["SAVE"] -> pr' "save %d" (List.length (save v !cur))
     | _ -> pr' "error unknown-op %s" line) ops
 
+let spec_ok keys = valid_keys keys
 let split_keys body =
   let rec go acc = function
     | l :: t when String.length l >= 2 && String.sub l 0 2 = "K " ->
@@ -206,11 +207,28 @@ let split_keys body =
     | rest -> (List.rev acc, rest) in
   go [] body
 
+(* dictionaries with more keys than this are not rebuilt by the (slow, list-based) builder model: the model
+   parses the implementation's own file instead; the certificate check (cert_check) is what ties it to K *)
+let build_max = (try int_of_string (Sys.getenv "XMODEL_BUILD_MAX") with _ -> 30000)
 let do_build (c : case) v bin keys =
-  let tbl = match Hashtbl.find_opt impl_files c.id with
-    | Some hex -> (match table_of_file hex with Some t -> t | None -> own_table keys)
-    | None -> own_table keys in
-  build v tbl keys bin
+  match Hashtbl.find_opt impl_files c.id with
+  | Some hex when List.length keys > build_max && spec_ok keys ->
+    pr "@big parsed-from-implementation-file";
+    load v (bytes_of_hex hex)
+  | Some hex -> build v (match table_of_file hex with Some t -> t | None -> own_table keys) keys bin
+  | None -> build v (own_table keys) keys bin
+
+(* certificate (DESIGN.md 4.2): the logical content of the implementation's file reassembles to the same bytes
+   and is well formed for K *)
+let emit_cert (c : case) v keys =
+  if docert then
+    match Hashtbl.find_opt impl_files c.id with
+    | Some hex ->
+      let ib = bytes_of_hex hex in
+      (match load v ib with
+       | Ok p0 -> pr "@cert %s" (if cert_check v save p0 ib keys then "ok" else "FAIL")
+       | r -> pr "@cert FAIL load %s" (exc_or_fault r))
+    | None -> ()
 
 let case_trie (c : case) =
   match c.args with
@@ -225,13 +243,7 @@ let case_trie (c : case) =
        (match Hashtbl.find_opt impl_files c.id with
         | Some hex ->
           let ib = bytes_of_hex hex in
-          (* certificate (DESIGN.md 4.2): logical content of the implementation's file reassembles to the
-             same bytes and is well formed for K *)
-          if docert then begin
-            match load v ib with
-            | Ok p0 -> pr "@cert %s" (if cert_check v save p0 ib keys then "ok" else "FAIL")
-            | r -> pr "@cert FAIL load %s" (exc_or_fault r)
-          end;
+          emit_cert c v keys;
           if ib <> save v p then begin
             pr "@drift builder-bytes-differ";
             (match load v ib with
@@ -252,6 +264,7 @@ let case_conc (c : case) =
      | Ok p0 ->
        pr "build ok";
        pr "file %s" (hex_of_bytes (save v p0));
+       emit_cert c v keys;
        let p = match src with
          | "load" -> (match load v (save v p0) with Ok p -> p | _ -> p0)
          | "mmap" -> (match mmap v (save v p0) with Ok p -> p | _ -> p0)
